@@ -114,7 +114,11 @@ func (s *JavaFullListener) exitBody() {
 	}
 
 	if currentNode.Type == "InnerStructures" && len(classNodeQueue) >= 1 {
-		classNodeQueue[0].InnerStructures = append(currentNode.InnerStructures, *currentNode)
+		// the member joins the outer type's own list; it was built on a copy of the outer node and still carries that
+		// node's earlier members, which are no members of its own
+		member := *currentNode
+		member.InnerStructures = nil
+		classNodeQueue[0].InnerStructures = append(classNodeQueue[0].InnerStructures, member)
 	} else {
 		classNodes = append(classNodes, *currentNode)
 	}
